@@ -19,7 +19,7 @@ META = {
         "R04.1": "capacity guards are inequalities with exact thresholds (push, is_full, push_many, try_extend); failing insertions write nothing (or roll back)",
         "R04.2": "field ownership: private fields; writers of values / max_stack_size; no &mut Vec escape",
         "R04.3": "all-or-nothing removal: size >= arity dominates the first pop; Underflow payloads; top* take &self",
-        "R04.4": "LIFO order of top/top2/top3/pop2/pop3/push_many/try_extend/discard",
+        "R04.4": "LIFO order of top/top2/top3/pop2/pop3/push_many/try_extend/discard; each operation hands self.values out mutably only to the calls it is built from",
         "R04.5": "panic-site audit (A8) of the stack API",
         "R04.6": "inventory of &mut self operations in Stack's impls: each is decided by R04.1-R04.4 or is all-or-nothing by construction (at most one mutating call per path, none in a loop or per-element closure)",
     },
@@ -442,6 +442,56 @@ def try_extend_rules(ctx, f):
         ctx.check(bad is None, "R04.6", "mutator/%s/all-or-nothing-by-construction" % fn.id.replace(" ", ""), "at most one mutating call per path, none repeated", fn.at(),
                   bad_detail="%s is an operation on the stack that the rules do not know; it %s, so a failure after a partial change is possible (every operation must succeed completely or leave the contents as they were)" % (fn.id, bad))
     ctx.floor("R04.6", n_mut, 8, "&mut self operations in Stack's impls")
+
+    # ---- R04.4: nothing else happens to the storage ------------------------------------------------------------------
+    # The clauses of each operation pin the change it is meant to make (one push, one pop, extend + reverse of the tail...).
+    # Here: on no path of a known operation is `self.values` handed out mutably to anything *besides* the kind of call that
+    # operation is built from - a `reverse()` after the push, a `swap` after the pop, a `sort` anywhere are changes of the
+    # contents that no clause above looks at.
+    CAPACITY_ONLY = ("Vec::reserve", "Vec::reserve_exact", "Vec::shrink_to_fit", "Vec::shrink_to", "Vec::try_reserve", "Vec::try_reserve_exact")
+    BUILT_FROM = {
+        "push": ("Vec::push",), "pop": ("Vec::pop",), "pop2": ("Vec::pop",), "pop3": ("Vec::pop",), "discard": ("Vec::pop", "Vec::truncate"),
+        "push_many": ("Vec::extend", "Extend::extend", "Vec::push"), "set_max_stack_size": (),
+        "try_extend": ("Vec::extend", "Extend::extend", "Vec::push", "Vec::truncate", "[T]::reverse", "IndexMut::index_mut", "DerefMut::deref_mut", "Vec::as_mut_slice", "[T]::get_mut", "[T]::split_at_mut"),
+    }
+
+    def hands_out_values_mutably(a):
+        mutable = False
+        while isinstance(a, tuple) and a:
+            if a[0] == "ref":
+                mutable = mutable or (len(a) > 2 and bool(a[2]))
+                if mutable and is_values(a[1]):
+                    return True
+                a = a[1]
+            elif a[0] in ("deref",):
+                a = a[1]
+            elif a[0] == "cast" and len(a) > 2:
+                a = a[2]
+            elif a[0] == "call" and a[3] and callee_is(a, "DerefMut::deref_mut", "IndexMut::index_mut", "Vec::as_mut_slice", "[T]::get_mut", "[T]::split_at_mut", "Option::unwrap", "Option::expect"):
+                mutable = True
+                a = a[3][0]
+            else:
+                break
+        return False
+    n_ops = 0
+    for opname, allowed in sorted(BUILT_FROM.items()):
+        fid = TE if opname == "try_extend" else S + opname
+        fn = F.fns.get(fid)
+        if fn is None:
+            continue            # its absence is reported by the operation's own clauses
+        n_ops += 1
+        extra = []
+        fam = [fn] + [F.fns[c] for c in F.closures_of(fn.id) if c in F.fns]
+        for g in fam:
+            for p in ctx.paths(g):
+                if p.end == "unreachable":
+                    continue
+                for c in p.calls():
+                    if c[3] and any(hands_out_values_mutably(a) for a in c[3]) and not callee_is(c, *(allowed + CAPACITY_ONLY)):
+                        extra.append(short(c, 3))
+        ctx.check(not extra, "R04.4", "%s/changes-the-storage-only-as-its-clauses-say" % opname, "mutable uses of self.values: only %s" % (", ".join(allowed) or "none"), fn.at(),
+                  bad_detail="%s hands self.values out mutably to a call its clauses do not account for: %s" % (opname, ", ".join(sorted(set(extra)))))
+    ctx.floor("R04.4", n_ops, 8, "stack operations whose storage accesses were inventoried")
 
     # ================= R04.3 / R04.4 removal ==============================================
     f = ctx.fn(S + "pop")
